@@ -206,6 +206,36 @@ def rule_press_dedup(prog):
     if not presses:
         res.viol("anchors", f.loc, "press loop not found")
         return res
+    # (c) prev_keys, the list the release loop walks, holds every code once: it only grows by a push that is skipped
+    # when the code is already in it
+    n_ins = 0
+    for g in prog.fns.values():
+        if g.crate != "kanata_state_machine" or g.derive:
+            continue
+        g_contains = [(bi, t) for bi, t in g.calls() if (callee_name(t) or "").endswith("::contains") and (receiver_fields(g, t) or [None])[-1] == "prev_keys"]
+        for bi, t in g.calls():
+            meth = (callee_name(t) or "").split("::")[-1]
+            if meth not in ("push", "append", "extend", "extend_from_slice", "insert"):
+                continue
+            fl = receiver_fields(g, t)
+            if not (fl and fl[-1] == "prev_keys"):
+                continue
+            n_ins += 1
+            ok = False
+            if meth == "push":
+                for (cb, ct) in g_contains:
+                    nb = ct["t"]
+                    tt = g.term(nb) if nb is not None else None
+                    if tt and tt["k"] == "switch" and g.dominates(cb, bi):
+                        true_t = [tb for v, tb in tt["ts"] if v == 1] or ([tt["o"]] if any(v == 0 for v, _ in tt["ts"]) else [])
+                        if true_t and bi not in g.reach_from(true_t[0], avoid=[nb, cb]):
+                            ok = True
+            res.inst("prev_keys-insert/%s#%d" % (g.norm.split("::")[-1], n_ins), how=meth, only_new_codes=ok)
+            res.oblige(ok)
+            if not ok:
+                res.viol("prev_keys-insert/%s/%s" % (g.norm.split("::")[-1], meth), "%s:%s" % (g.file, t.get("ln")),
+                         "prev_keys grows by %s without a preceding !prev_keys.contains(..) test: a key code the layout reports twice is "
+                         "remembered twice and its release is sent twice" % meth)
     loop_calls = [(pb, pt) for (pb, pt) in presses + seqs if any(f.dominates(cb, pb) for cb, _ in contains)]
     if not loop_calls:
         res.viol("press-loop/not-skipped", f.loc, "no press of a current key code is preceded by a prev_keys.contains() test: codes "
